@@ -138,6 +138,64 @@ def generate(ctx, r):
     return cases
 
 
+# ---- the byte-value sweep -----------------------------------------------------------------------------------
+# "non-hex byte at a hex-digit position" sites: name -> (byte values of the class, positions)
+BAD_SITES = {"s.tid": (233, 32), "s.sid": (233, 16), "m.tid": (234, 32), "m.sid": (234, 16),
+             "j.tid": (233, 32), "j.sid": (233, 16), "j.par": (233, 16), "j.fl": (233, 2)}
+DEF = {"s": {"tid": "ok32", "sid": "ok", "smp": "1", "par": "none", "st": "ok", "cs": "lower"},
+       "m": {"tid": "ok32", "sid": "ok", "smp": "1", "cs": "lower"},
+       "j": {"tid": "ok32", "sid": "ok", "par": "0", "fl": "hex2", "st": "ok", "cs": "lower"}}
+
+
+def sweep_cases(ctx, cases):
+    """For every TLC line whose only malformation is ONE non-hex class, a copy marked "sweep": the harness
+    enumerates every byte value of the class (all bytes that are neither hex digits nor the format's
+    separator) at every position of the field.  The expectation stays the one TLC printed."""
+    out, seen = [], {}
+    for cs in cases:
+        if cs["k"] != "x":
+            continue
+        car = cs["car"]
+        faults = []
+        if cs["fmt"] == "b3":
+            if car["s"]["p"] == "present":
+                faults += [("s." + d, car["s"][d]) for d in DEF["s"] if car["s"][d] != DEF["s"][d]]
+            if not (car["m"]["tid"] == "absent" and car["m"]["sid"] == "absent" and car["m"]["smp"] == "missing"):
+                faults += [("m." + d, car["m"][d]) for d in DEF["m"] if car["m"][d] != DEF["m"][d]]
+        else:
+            if car["j"]["p"] != "present" or car["j"]["fb"] != 1:
+                continue
+            faults += [("j." + d, car["j"][d]) for d in DEF["j"] if car["j"][d] != DEF["j"][d]]
+        if len(faults) != 1 or faults[0][1] != "nonhex" or faults[0][0] not in BAD_SITES:
+            continue
+        c = json.loads(json.dumps(cs))
+        c["orig"] = cs["id"]
+        c["id"] = 2 * 10 ** 9 + cs["id"]
+        c["sweep"] = "full"
+        out.append(c)
+        seen.setdefault(faults[0][0], []).append(c["id"])
+    missing = set(BAD_SITES) - set(seen)
+    if missing:
+        raise Broken("vacuity: no single-fault case to sweep for %s" % sorted(missing))
+    return out, seen
+
+
+def check_sweeps(ctx, sweeps, seen, results):
+    cov, runs = {}, 0
+    for site, ids in sorted(seen.items()):
+        nbytes, npos = BAD_SITES[site]
+        for cid in ids:
+            r = results.get(cid, {})
+            sw = r.get("sweep") or {}
+            if r.get("v") == "ok":
+                runs += r.get("n", 0)
+                if sw.get("bytes") != nbytes or sw.get("positions") != npos or r.get("n") != nbytes * npos:
+                    raise Broken("byte sweep of %s incomplete: %s" % (site, sw))
+        cov[site + "=nonhex"] = {"byte_values": nbytes, "positions": npos, "cases": len(ids),
+                                 "verdicts": sorted(set(results.get(c, {}).get("v") for c in ids))}
+    ctx.extra["byte_sweep"] = {"classes_swept_completely": cov, "sweep_cases": len(sweeps), "executions": runs}
+
+
 def canaries(cases):
     out = []
 
@@ -219,7 +277,11 @@ def replay_cases(ctx, exe, cases):
     n = 12 if ctx.tier == "thorough" else 4
     can = canaries(cases)
     cres = propagation.run_cases(ctx, exe, [c for _, c in can], n, procs=1, tag="canary")
+    sweeps, seen = sweep_cases(ctx, cases)
+    nbeh = len(cases)
+    cases = cases + sweeps
     results = propagation.run_cases(ctx, exe, cases, n, procs=4)
+    check_sweeps(ctx, sweeps, seen, results)
     for why, c in can:
         r = cres.get(c["id"])
         orig = results.get(c["orig"], {}).get("v")
@@ -232,11 +294,11 @@ def replay_cases(ctx, exe, cases):
     cnt = classify(ctx, cases, results, n)
     if not ctx.violations and (cnt["valid"] == 0 or cnt["unchanged"] == 0):
         raise Broken("vacuity: the real propagators never accepted / never rejected: %s" % cnt)
-    ctx.extra["replay"] = {"cases": len(cases), "concretisations_per_case": n,
+    ctx.extra["replay"] = {"cases": nbeh, "sweep_cases": len(sweeps), "concretisations_per_case": n,
                            "verdicts": {k: cnt[k] for k in ("ok", "dev", "bad", "crash")},
                            "observed_valid": cnt["valid"], "observed_unchanged": cnt["unchanged"]}
-    ctx.traces += len(cases)
-    ctx.evaluations += len(cases) * n
+    ctx.traces += nbeh
+    ctx.evaluations += sum(r.get("n", 0) for r in results.values())
     for c in cases:
         ctx.distinct.add(("beh", c["id"]))
     shown = 0
